@@ -38,7 +38,9 @@ SolVertsFor(M, r, lb, ub, fr) ==
        LET xfix == [k \in 1..Len(fx) |-> IF asg[k] = 0 THEN lb[fx[k]] ELSE ub[fx[k]]]
            rhs == IF Len(fx) = 0 THEN r ELSE VSub(r, MatVec(SubCols(M, fx), xfix))
            cr == [j \in 1..d |-> s * Det(ReplaceCol(MF, j, rhs))]
-           ok == \A j \in 1..d : cr[j] >= lb[fr[j]] * a /\ cr[j] <= ub[fr[j]] * a
+           (* a source without an upper bound cannot sit at it: INF is a marker, not a value (checked first) *)
+           ok == /\ \A k \in 1..Len(fx) : ~(asg[k] = 1 /\ ub[fx[k]] = INF)
+                 /\ \A j \in 1..d : cr[j] >= lb[fr[j]] * a /\ (ub[fr[j]] = INF \/ cr[j] <= ub[fr[j]] * a)
        IN IF ok THEN {PNorm([c \in 1..n |-> IF InIdx(fr, c) THEN cr[Pos(fr, c)] ELSE xfix[Pos(fx, c)] * a], a)}
           ELSE {}
        : asg \in [1..Len(fx) -> {0, 1}] }
